@@ -558,3 +558,376 @@ Proof.
   - rewrite nth_overflow by (rewrite map_length; apply Nat.le_refl). apply app_nil_r.
   - intros i Hi. cbn [Nat.add]. change (@nil N) with (fst (@nil N, (@nil N, false))). apply map_nth.
 Qed.
+
+(* ------------------------------------------------------------------ tokens of the chunks = tokens of the normalised document *)
+Lemma toks_kvs c n : forall kvs g, wf_kvs kvs = true -> map snd (ch_kvs c n g kvs) = toks_fields kvs.
+Proof.
+  induction kvs as [|fd r IH]; intros g Hwf; [reflexivity|].
+  destruct fd as [k key op v| |]; try discriminate Hwf. cbn [wf_kvs] in Hwf. andb_split.
+  destruct v as [k2 s| | | |]; try discriminate. destruct op as [o|]; [|discriminate].
+  cbn [ch_kvs map snd toks_fields toks_field toks_value optok app op_or_eq]. rewrite IH by assumption. reflexivity.
+Qed.
+
+Lemma chunks_toks c :
+  (forall v n g, rt_value v = true -> wf_value v = true -> map snd (ch_value c n g v) = toks_value (norm_value v)) /\
+  (forall f n g, rt_field f = true -> wf_field f = true -> map snd (ch_field c n g f) = toks_field (norm_field f)) /\
+  (forall fs n g, rt_fields fs = true -> wf_fields fs = true -> map snd (ch_fields c n g fs) = toks_fields (norm_fields fs)) /\
+  (forall vs n g, rt_values vs = true -> wf_items vs = true -> map snd (ch_items c n g vs) = toks_values (norm_values vs)).
+Proof.
+  apply doc_mutind.
+  - reflexivity.
+  - intros fs Hfs tl _ n g Hrt Hwf. cbn [rt_value wf_value] in Hrt, Hwf. andb_split. destruct tl; [|discriminate].
+    cbn [ch_value norm_value toks_value map snd toks_values app]. rewrite map_app, Hfs by assumption. reflexivity.
+  - intros items H n g Hrt Hwf. cbn [rt_value wf_value] in Hrt, Hwf. andb_split.
+    cbn [ch_value norm_value toks_value map snd]. rewrite map_app, H by assumption. reflexivity.
+  - intros items H kvs _ n g Hrt Hwf. cbn [rt_value wf_value] in Hrt, Hwf. andb_split.
+    cbn [ch_value norm_value toks_value map snd]. rewrite !map_app, H, toks_kvs by assumption. reflexivity.
+  - intros name v H n g Hrt Hwf. cbn [rt_value wf_value] in Hrt, Hwf. andb_split.
+    cbn [ch_value norm_value toks_value map snd]. rewrite H by assumption. reflexivity.
+  - intros k key op v H n g Hrt Hwf. cbn [rt_field wf_field] in Hrt, Hwf. andb_split.
+    cbn [ch_field norm_field toks_field map snd optok app]. rewrite H by assumption. destruct op; reflexivity.
+  - intros name u s n g Hrt. discriminate Hrt.
+  - intros name u fs H n g Hrt Hwf. cbn [rt_field wf_field] in Hrt, Hwf. andb_split.
+    cbn [ch_field norm_field toks_field map snd]. rewrite map_app, H by assumption. reflexivity.
+  - reflexivity.
+  - intros f Hf fs Hfs n g Hrt Hwf. cbn [rt_fields wf_fields] in Hrt, Hwf. andb_split.
+    cbn [ch_fields norm_fields toks_fields]. rewrite map_app, Hf, Hfs by assumption. reflexivity.
+  - reflexivity.
+  - intros v Hv vs Hvs n g Hrt Hwf. cbn [rt_values wf_items] in Hrt, Hwf. andb_split.
+    cbn [ch_items norm_values toks_values]. rewrite map_app, Hv, Hvs by assumption. reflexivity.
+Qed.
+
+(* ------------------------------------------------------------------ every gap is white space *)
+Definition gaps_ok (l : list chunk) : Prop := Forall (fun ch : chunk => gap_ok (fst ch)) l.
+
+Section Gaps.
+Variable c : cfg.
+Hypothesis Hc : cfg_ok c.
+
+Lemma gap_ok_ws_repeat b k : is_ws_t b = true -> gap_ok (repeat b k).
+Proof. intros H. induction k; cbn [repeat]; [constructor|apply gap_ws; assumption]. Qed.
+Lemma gap_ok_ind n : gap_ok (ind c n).
+Proof.
+  unfold ind. destruct Hc as [H | H]; [apply gap_ok_ws_repeat; exact H|].
+  rewrite H. cbn [N.to_nat]. rewrite Nat.mul_0_r. constructor.
+Qed.
+Lemma gap_ok_nli n : gap_ok (nli c n).
+Proof. apply gap_ws; [reflexivity|apply gap_ok_ind]. Qed.
+Lemma gap_ok_sp : gap_ok [SP].
+Proof. apply gap_ws; [reflexivity|constructor]. Qed.
+Lemma gap_ok_sepgap n b : gap_ok (sepgap c n b).
+Proof. destruct b; [apply gap_ok_nli|apply gap_ok_sp]. Qed.
+Lemma gap_ok_close n b : gap_ok (close_gap c n b).
+Proof. destruct b; [apply gap_ok_sp|apply gap_ok_nli]. Qed.
+Lemma gap_ok_opgap o : gap_ok (opgap o).
+Proof. destruct o; try apply gap_ok_sp; constructor. Qed.
+
+Lemma gaps_kvs n : forall kvs g, gap_ok g -> gaps_ok (ch_kvs c n g kvs).
+Proof.
+  induction kvs as [|fd r IH]; intros g Hg; [constructor|].
+  destruct fd as [k key op [k2 s| | | |]| |]; cbn [ch_kvs]; try (constructor; fail).
+  constructor; [exact Hg|]. constructor; [constructor|]. constructor; [constructor|]. apply IH, gap_ok_sp.
+Qed.
+
+Lemma chunks_gaps :
+  (forall v n g, gap_ok g -> gaps_ok (ch_value c n g v)) /\
+  (forall f n g, gap_ok g -> gaps_ok (ch_field c n g f)) /\
+  (forall fs n g, gap_ok g -> gaps_ok (ch_fields c n g fs)) /\
+  (forall vs n g, gap_ok g -> gaps_ok (ch_items c n g vs)).
+Proof.
+  unfold gaps_ok. apply doc_mutind.
+  - intros k s n g Hg. constructor; [exact Hg|constructor].
+  - intros fs Hfs tl _ n g Hg. cbn [ch_value]. constructor; [exact Hg|]. apply Forall_app. split.
+    + apply Hfs, gap_ok_nli.
+    + constructor; [apply gap_ok_close|constructor].
+  - intros items H n g Hg. cbn [ch_value]. constructor; [exact Hg|]. apply Forall_app. split.
+    + apply H, gap_ok_nli.
+    + constructor; [apply gap_ok_close|constructor].
+  - intros items H kvs _ n g Hg. cbn [ch_value]. constructor; [exact Hg|]. apply Forall_app. split; [|apply Forall_app; split].
+    + apply H, gap_ok_nli.
+    + apply gaps_kvs, gap_ok_sepgap.
+    + constructor; [apply gap_ok_nli|constructor].
+  - intros name v H n g Hg. cbn [ch_value]. constructor; [exact Hg|]. apply H, gap_ok_sp.
+  - intros k key op v H n g Hg. cbn [ch_field]. constructor; [exact Hg|]. constructor; [apply gap_ok_opgap|].
+    apply H, gap_ok_opgap.
+  - intros name u s n g Hg. cbn [ch_field]. constructor; [exact Hg|]. constructor; [apply gap_ws; [reflexivity|constructor]|].
+    constructor; constructor.
+  - intros name u fs H n g Hg. cbn [ch_field]. constructor; [exact Hg|]. apply Forall_app. split.
+    + apply H, gap_ok_nli.
+    + constructor; [apply gap_ok_nli|constructor].
+  - constructor.
+  - intros f Hf fs Hfs n g Hg. cbn [ch_fields]. apply Forall_app. split; [apply Hf, Hg|apply Hfs, gap_ok_nli].
+  - constructor.
+  - intros v Hv vs Hvs n g Hg. cbn [ch_items]. apply Forall_app. split; [apply Hv, Hg|apply Hvs, gap_ok_sepgap].
+Qed.
+End Gaps.
+
+(* ------------------------------------------------------------------ bare words are followed by a boundary byte *)
+Definition bgap (g : bytes) : Prop := exists b r, g = b :: r /\ is_boundary b = true.
+Definition bstart (ch : chunk) : Prop := bgap (fst ch ++ fst (snd ch)).
+Fixpoint adjb (p : bool) (l : list chunk) : Prop :=
+  match l with [] => True | ch :: r => (p = true -> bstart ch) /\ adjb (snd (snd ch)) r end.
+
+Lemma adjb_weaken p l : adjb true l -> adjb p l.
+Proof. destruct l as [|ch r]; [auto|]. intros [H1 H2]. split; auto. Qed.
+Lemma adjb_app p a b : adjb p a -> adjb true b -> adjb p (a ++ b).
+Proof.
+  revert p. induction a as [|x a IH]; intros p Ha Hb; [apply adjb_weaken, Hb|].
+  destruct Ha as [H1 H2]. split; [exact H1|]. apply IH; assumption.
+Qed.
+Lemma bgap_app g x : bgap g -> bgap (g ++ x).
+Proof. intros [b [r [-> H]]]. exists b, (r ++ x). auto. Qed.
+Lemma bstart_gap g tk : bgap g -> bstart (g, tk).
+Proof. intros H. apply bgap_app, H. Qed.
+Lemma bgap_sp : bgap [SP].
+Proof. exists SP, []. auto. Qed.
+Lemma bgap_nli c n : bgap (nli c n).
+Proof. exists NL, (ind c n). auto. Qed.
+Lemma bgap_sepgap c n b : bgap (sepgap c n b).
+Proof. destruct b; [apply bgap_nli|apply bgap_sp]. Qed.
+Lemma bgap_close c n b : bgap (close_gap c n b).
+Proof. destruct b; [apply bgap_sp|apply bgap_nli]. Qed.
+Lemma bstart_op o : bstart (opgap o, optk o).
+Proof. destruct o; eexists; eexists; (split; [reflexivity|reflexivity]). Qed.
+
+Lemma adj_kvs c n : forall kvs g p, wf_kvs kvs = true -> (p = true -> bgap g) -> adjb p (ch_kvs c n g kvs).
+Proof.
+  induction kvs as [|fd r IH]; intros g p Hwf Hg; [exact I|].
+  destruct fd as [k key op v| |]; try discriminate Hwf. cbn [wf_kvs] in Hwf. andb_split.
+  destruct v as [k2 s| | | |]; try discriminate. destruct op as [o|]; [|discriminate].
+  cbn [ch_kvs adjb op_or_eq]. split; [intros Hp; apply bstart_gap, Hg, Hp|]. split.
+  - intros _. destruct o; try discriminate; eexists; eexists; (split; [reflexivity|reflexivity]).
+  - split; [discriminate|]. apply IH; [assumption|]. intros _. apply bgap_sp.
+Qed.
+
+Lemma chunks_adj c :
+  (forall v n g p, wf_value v = true -> (p = true -> bgap g) -> adjb p (ch_value c n g v)) /\
+  (forall f n g p, wf_field f = true -> (p = true -> bgap g) -> adjb p (ch_field c n g f)) /\
+  (forall fs n g p, wf_fields fs = true -> (p = true -> bgap g) -> adjb p (ch_fields c n g fs)) /\
+  (forall vs n g p, wf_items vs = true -> (p = true -> bgap g) -> adjb p (ch_items c n g vs)).
+Proof.
+  apply doc_mutind.
+  - intros k s n g p _ Hg. split; [intros Hp; apply bstart_gap, Hg, Hp|exact I].
+  - intros fs Hfs tl _ n g p Hwf Hg. cbn [wf_value] in Hwf. andb_split. cbn [ch_value].
+    split; [intros Hp; apply bstart_gap, Hg, Hp|]. apply adjb_app.
+    + apply Hfs; [assumption|discriminate].
+    + split; [intros _; apply bstart_gap, bgap_close|exact I].
+  - intros items H n g p Hwf Hg. cbn [wf_value] in Hwf. andb_split. cbn [ch_value].
+    split; [intros Hp; apply bstart_gap, Hg, Hp|]. apply adjb_app.
+    + apply H; [assumption|discriminate].
+    + split; [intros _; apply bstart_gap, bgap_close|exact I].
+  - intros items H kvs _ n g p Hwf Hg. cbn [wf_value] in Hwf. andb_split. cbn [ch_value].
+    split; [intros Hp; apply bstart_gap, Hg, Hp|]. apply adjb_app; [|apply adjb_app].
+    + apply H; [assumption|discriminate].
+    + apply adj_kvs; [assumption|]. intros _. apply bgap_sepgap.
+    + split; [intros _; apply bstart_gap, bgap_nli|exact I].
+  - intros name v H n g p Hwf Hg. cbn [wf_value] in Hwf. andb_split. cbn [ch_value].
+    split; [intros Hp; apply bstart_gap, Hg, Hp|]. apply H; [assumption|]. intros _. apply bgap_sp.
+  - intros k key op v H n g p Hwf Hg. cbn [wf_field] in Hwf. andb_split. cbn [ch_field].
+    split; [intros Hp; apply bstart_gap, Hg, Hp|]. split; [intros _; apply bstart_op|].
+    apply H; [assumption|discriminate].
+  - intros name u s n g p _ Hg. cbn [ch_field]. split; [intros Hp; apply bstart_gap, Hg, Hp|].
+    split; [discriminate|]. split; [|exact I]. intros _. eexists; eexists; (split; [reflexivity|reflexivity]).
+  - intros name u fs H n g p Hwf Hg. cbn [wf_field] in Hwf. andb_split. cbn [ch_field].
+    split; [intros Hp; apply bstart_gap, Hg, Hp|]. apply adjb_app.
+    + apply H; [assumption|discriminate].
+    + split; [intros _; apply bstart_gap, bgap_nli|exact I].
+  - intros; exact I.
+  - intros f Hf fs Hfs n g p Hwf Hg. cbn [wf_fields] in Hwf. andb_split. cbn [ch_fields]. apply adjb_app.
+    + apply Hf; assumption.
+    + apply Hfs; [assumption|]. intros _. apply bgap_nli.
+  - intros; exact I.
+  - intros v Hv vs Hvs n g p Hwf Hg. cbn [wf_items] in Hwf. andb_split. cbn [ch_items]. apply adjb_app.
+    + apply Hv; assumption.
+    + apply Hvs; [assumption|]. intros _. apply bgap_sepgap.
+Qed.
+
+Lemma adjb_sep (chs : list chunk) : forall p k (g : nat -> bytes), adjb p chs ->
+  (forall i, i < length chs -> g (k + i) = fst (nth i chs ([], ([], false)))) -> g (k + length chs) = [] ->
+  sep_ok g (map snd chs) k.
+Proof.
+  induction chs as [|ch r IH]; intros p k g Ha Hg He; [exact I|].
+  destruct Ha as [_ Ha]. cbn [map sep_ok].
+  assert (Hg' : forall i, i < length r -> g (S k + i) = fst (nth i r ([], ([], false)))).
+  { intros i Hi. replace (S k + i) with (k + S i) by lia. rewrite Hg by (cbn; lia). reflexivity. }
+  assert (He' : g (S k + length r) = []).
+  { rewrite <- He. f_equal. cbn [length]. lia. }
+  split; [|apply (IH _ _ _ Ha Hg' He')].
+  intros Hgl. rewrite (render_chunks r (S k) g Hg'), He', app_nil_r.
+  destruct r as [|ch2 r2]; [exact I|]. destruct Ha as [Hb _]. specialize (Hb Hgl).
+  destruct Hb as [b [rr [E Hb]]]. destruct ch2 as [g2 t2]. rewrite cbytes_cons, app_assoc.
+  cbn [fst snd] in E. rewrite E. exact Hb.
+Qed.
+
+(* ------------------------------------------------------------------ the output does not start with a BOM *)
+Lemma has_bom_hd_ne a r : a <> 239%N -> has_bom (a :: r) = false.
+Proof.
+  intros Ha. unfold has_bom. destruct a as [|p]; [reflexivity|].
+  do 8 (destruct p as [p|p|]; try reflexivity). all: exfalso; apply Ha; reflexivity.
+Qed.
+Lemma has_bom_2nd_ne b r : b <> 187%N -> has_bom (239%N :: b :: r) = false.
+Proof.
+  intros Hb. unfold has_bom. destruct b as [|p]; [reflexivity|].
+  do 8 (destruct p as [p|p|]; try reflexivity). all: exfalso; apply Hb; reflexivity.
+Qed.
+Lemma has_bom_3rd_ne x r : x <> 191%N -> has_bom (239%N :: 187%N :: x :: r) = false.
+Proof.
+  intros Hx. unfold has_bom. destruct x as [|p]; [reflexivity|].
+  do 8 (destruct p as [p|p|]; try reflexivity). all: exfalso; apply Hx; reflexivity.
+Qed.
+Lemma has_bom_3 a b x r r' : has_bom (a :: b :: x :: r) = has_bom (a :: b :: x :: r').
+Proof.
+  destruct (N.eq_dec a 239) as [->|Ha]; [|rewrite !has_bom_hd_ne by exact Ha; reflexivity].
+  destruct (N.eq_dec b 187) as [->|Hb]; [|rewrite !has_bom_2nd_ne by exact Hb; reflexivity].
+  destruct (N.eq_dec x 191) as [->|Hx]; [reflexivity|rewrite !has_bom_3rd_ne by exact Hx; reflexivity].
+Qed.
+
+Lemma has_bom_key key rest : has_bom key = false -> bgap rest -> has_bom (key ++ rest) = false.
+Proof.
+  intros Hk [b [r [-> Hb]]].
+  assert (N1 : b <> 239%N) by (intros ->; discriminate Hb).
+  assert (N2 : b <> 187%N) by (intros ->; discriminate Hb).
+  assert (N3 : b <> 191%N) by (intros ->; discriminate Hb).
+  destruct key as [|a [|b' [|x k]]]; cbn [app].
+  - apply has_bom_hd_ne, N1.
+  - destruct (N.eq_dec a 239) as [->|Ha]; [apply has_bom_2nd_ne, N2|apply has_bom_hd_ne, Ha].
+  - destruct (N.eq_dec a 239) as [->|Ha]; [|apply has_bom_hd_ne, Ha].
+    destruct (N.eq_dec b' 187) as [->|Hb']; [apply has_bom_3rd_ne, N3|apply has_bom_2nd_ne, Hb'].
+  - rewrite (has_bom_3 _ _ _ _ k). exact Hk.
+Qed.
+
+Lemma chunks_nobom c d : wf_doc d -> nobom d = true -> has_bom (cbytes (chunks_w c d)) = false.
+Proof.
+  intros Hwf Hn. unfold chunks_w. destruct d as [|f fs]; [reflexivity|].
+  cbn [ch_fields]. rewrite cbytes_app. destruct f as [k key op v|name u s|name u fs'].
+  - cbn [ch_field]. rewrite !cbytes_cons. cbn [app stok fst optk]. destruct k; cbn [scalar_bytes].
+    + cbn [nobom] in Hn. rewrite <- !app_assoc. apply has_bom_key; [destruct (has_bom key); [discriminate|reflexivity]|].
+      rewrite app_assoc. apply bgap_app. apply (bstart_op (op_or_eq op)).
+    + reflexivity.
+  - reflexivity.
+  - reflexivity.
+Qed.
+
+(* ------------------------------------------------------------------ the normalisation is invisible on the tape and keeps documents well formed *)
+Lemma flat_norm :
+  (forall v off, flat_value off (norm_value v) = flat_value off v) /\
+  (forall f off, flat_field false off (norm_field f) = flat_field false off f) /\
+  (forall fs off, flat_fields false off (norm_fields fs) = flat_fields false off fs) /\
+  (forall vs off, flat_values off (norm_values vs) = flat_values off vs).
+Proof.
+  apply doc_mutind.
+  - reflexivity.
+  - intros fs Hfs tl _ off. cbn [norm_value flat_value]. rewrite Hfs. reflexivity.
+  - intros items H off. cbn [norm_value flat_value]. rewrite H. reflexivity.
+  - intros items H kvs _ off. cbn [norm_value flat_value]. rewrite H. reflexivity.
+  - intros name v H off. cbn [norm_value flat_value]. rewrite H. reflexivity.
+  - intros k key op v H off. cbn [norm_field flat_field].
+    replace (op_toks false (Some match op with Some o => o | None => Equal end)) with (op_toks false op)
+      by (destruct op as [[]|]; reflexivity).
+    rewrite H. reflexivity.
+  - reflexivity.
+  - intros name u fs H off. cbn [norm_field flat_field]. rewrite H. reflexivity.
+  - reflexivity.
+  - intros f Hf fs Hfs off. cbn [norm_fields flat_fields]. rewrite Hf, Hfs. reflexivity.
+  - reflexivity.
+  - intros v Hv vs Hvs off. cbn [norm_values flat_values]. rewrite Hv, Hvs. reflexivity.
+Qed.
+
+Lemma flatten_norm d : flatten (norm_fields d) = flatten d.
+Proof. apply (proj1 (proj2 (proj2 flat_norm))). Qed.
+
+Lemma norm_is_container v : is_container (norm_value v) = is_container v.
+Proof. destruct v; reflexivity. Qed.
+Lemma norm_is_header v : is_header (norm_value v) = is_header v.
+Proof. destruct v; reflexivity. Qed.
+Lemma norm_is_empty_array v : is_empty_array (norm_value v) = is_empty_array v.
+Proof. destruct v as [| |[|]| |]; reflexivity. Qed.
+Lemma norm_first_field_ok fs : first_field_ok fs = true -> first_field_ok (norm_fields fs) = true.
+Proof. destruct fs as [|[k key [o|] v| |] r]; try reflexivity; try discriminate. cbn. auto. Qed.
+Lemma norm_param_first_ok fs : param_first_ok fs = true -> param_first_ok (norm_fields fs) = true.
+Proof. destruct fs as [|[[] key [o|] v| |] r]; try reflexivity; try discriminate. Qed.
+Lemma norm_param_first_word fs : param_first_word (norm_fields fs) = param_first_word fs.
+Proof. destruct fs as [|[[] key op v| |] r]; reflexivity. Qed.
+Lemma norm_first_item_scalar vs : first_item_scalar (norm_values vs) = first_item_scalar vs.
+Proof. destruct vs as [|[] r]; reflexivity. Qed.
+Lemma norm_first_item_not_ghost vs : first_item_not_ghost (norm_values vs) = first_item_not_ghost vs.
+Proof. destruct vs as [|[| |[|]| |] r]; reflexivity. Qed.
+
+Lemma wf_norm :
+  (forall v, wf_value v = true -> wf_value (norm_value v) = true) /\
+  (forall f, wf_field f = true -> wf_field (norm_field f) = true) /\
+  (forall fs, wf_fields fs = true -> wf_fields (norm_fields fs) = true) /\
+  (forall vs, wf_items vs = true -> wf_items (norm_values vs) = true).
+Proof.
+  apply doc_mutind.
+  - auto.
+  - intros fs Hfs tl _ Hwf. cbn [wf_value norm_value] in *. andb_split.
+    rewrite norm_first_field_ok, Hfs by assumption. assumption.
+  - intros items H Hwf. cbn [wf_value norm_value] in *. andb_split.
+    rewrite norm_first_item_not_ghost, H by assumption. rewrite H0. reflexivity.
+  - intros items H kvs _ Hwf. cbn [wf_value norm_value] in *. andb_split.
+    rewrite norm_first_item_scalar, H by assumption. rewrite H0, H2, H1. reflexivity.
+  - intros name v H Hwf. cbn [wf_value norm_value] in *. andb_split.
+    rewrite norm_is_container, norm_is_empty_array, H by assumption. rewrite H0, H3, H2. reflexivity.
+  - intros k key op v H Hwf. cbn [wf_field norm_field] in *. andb_split.
+    rewrite H by assumption. rewrite H0. reflexivity.
+  - auto.
+  - intros name u fs H Hwf. cbn [wf_field norm_field] in *. andb_split.
+    rewrite norm_param_first_ok, norm_param_first_word, H by assumption. rewrite H0, H2. reflexivity.
+  - auto.
+  - intros f Hf fs Hfs Hwf. cbn [wf_fields norm_fields] in *. andb_split. rewrite Hf, Hfs by assumption. reflexivity.
+  - auto.
+  - intros v Hv vs Hvs Hwf. cbn [wf_items norm_values] in *. andb_split.
+    rewrite norm_is_header, Hv, Hvs by assumption. rewrite H. reflexivity.
+Qed.
+
+(* ------------------------------------------------------------------ the theorems *)
+Definition w_end (d : doc) : wr := if fields_empty d then wr_init else mkwr DObject [] WKey true MDisabled.
+
+Lemma render_layout_w c d : rt d -> render (norm_fields d) (layout_w c d) = cbytes (chunks_w c d).
+Proof.
+  intros [Hwf [Hrt _]]. unfold render, layout_w. cbn [bom gap app].
+  rewrite <- (proj1 (proj2 (proj2 (chunks_toks c))) d 0 [] Hrt Hwf). apply render_layout_chunks.
+Qed.
+
+Theorem write_is_layout c d : rt d ->
+  write_tape (tape_fuel (flatten d)) c (flatten d) = WOk (w_end d) (render (norm_fields d) (layout_w c d)).
+Proof. intros H. rewrite render_layout_w by exact H. destruct H as [Hwf [Hrt _]]. apply write_tape_chunks; assumption. Qed.
+
+Theorem layout_w_wf c d : cfg_ok c -> rt d -> wf_layout (norm_fields d) (layout_w c d).
+Proof.
+  intros Hc Hr. pose proof Hr as [Hwf [Hrt Hnb]]. split; [|split].
+  - intros i. unfold layout_w. cbn [gap].
+    destruct (Nat.lt_ge_cases i (length (map fst (chunks_w c d)))) as [Hi|Hi]; [|rewrite nth_overflow by exact Hi; constructor].
+    apply Forall_nth; [|exact Hi]. apply Forall_map.
+    apply (proj1 (proj2 (proj2 (chunks_gaps c Hc))) d 0 []). constructor.
+  - unfold layout_w. cbn [gap].
+    rewrite <- (proj1 (proj2 (proj2 (chunks_toks c))) d 0 [] Hrt Hwf).
+    apply (adjb_sep _ false 0).
+    + apply (proj1 (proj2 (proj2 (chunks_adj c))) d 0 [] false Hwf). discriminate.
+    + intros i Hi. cbn [Nat.add]. change (@nil N) with (fst (@nil N, (@nil N, false))). apply map_nth.
+    + apply nth_overflow. rewrite map_length. apply Nat.le_refl.
+  - intros _. rewrite render_layout_w by exact Hr. apply chunks_nobom; assumption.
+Qed.
+
+Theorem norm_wf d : wf_doc d -> wf_doc (norm_fields d).
+Proof. apply (proj1 (proj2 (proj2 wf_norm))). Qed.
+
+(* C14: what write_tape prints for the tape of a round-trippable document parses back to that tape *)
+Theorem write_reparse c d out w : cfg_ok c -> rt d ->
+  write_tape (tape_fuel (flatten d)) c (flatten d) = WOk w out -> parse out = Ok (flatten d, false).
+Proof.
+  intros Hc Hr Hw. rewrite (write_is_layout c d Hr) in Hw. inversion Hw; subst.
+  rewrite (parse_render (norm_fields d) (layout_w c d)).
+  - rewrite flatten_norm. reflexivity.
+  - apply norm_wf, Hr.
+  - apply layout_w_wf; assumption.
+Qed.
+
+(* write . parse . write = write *)
+Theorem write_idempotent c d out w : cfg_ok c -> rt d ->
+  write_tape (tape_fuel (flatten d)) c (flatten d) = WOk w out ->
+  exists t', parse out = Ok (t', false) /\ write_tape (tape_fuel t') c t' = WOk w out.
+Proof.
+  intros Hc Hr Hw. exists (flatten d). split; [apply (write_reparse c d out w); assumption|exact Hw].
+Qed.
